@@ -1,7 +1,7 @@
 (* Properties_C04.v — RingBuffer behaves as a bounded double-ended queue.
    Only statements, each closed by [exact <lemma of RingProofs>], and Print Assumptions. *)
 From Coq Require Import List ZArith Bool Lia.
-From Tulz Require Import Common RingModel RingInv RingProofs RingAliasProofs.
+From Tulz Require Import Common RingModel RingInv RingProofs RingAliasProofs RingReach.
 Import ListNotations.
 Local Open Scope Z_scope.
 
@@ -93,6 +93,26 @@ Theorem C04_alias_histories : forall ow ops,
   map view_deque (deque_trace ow denv0 (desugar_all fixed_variant ow env0 ops)).
 Proof. exact alias_refines_deque. Qed.
 Print Assumptions C04_alias_histories.
+
+(* Reachable states.  [ring_run] is the environment a history leaves behind — the one whose dump closes the trace
+   (C04_trace_ends_in_run) — and after EVERY history each buffer variable holds a well-formed buffer or the moved-from
+   one: head inside the array, 0 <= size <= capacity, the array as long as the capacity, exactly the [size] logical
+   positions hold elements and no other slot does (C04_wf_reachable); hence the logical contents are exactly [size]
+   elements (C04_reachable_bounds). *)
+Theorem C04_trace_ends_in_run : forall vr ow ops e,
+  last (map snd (ring_trace vr ow e ops)) (dump_env e) = dump_env (ring_run vr ow e ops).
+Proof. exact ring_trace_last. Qed.
+Print Assumptions C04_trace_ends_in_run.
+
+Theorem C04_wf_reachable : forall ow ops, wf_env (ring_run fixed_variant ow env0 ops).
+Proof. exact ring_wf_reachable. Qed.
+Print Assumptions C04_wf_reachable.
+
+Theorem C04_reachable_bounds : forall ow ops b r,
+  env_get (ring_run fixed_variant ow env0 ops) b = Some r ->
+  0 <= size r <= cap r /\ Zlen (items r) = size r /\ contents r = map (@Live Z) (items r).
+Proof. exact ring_reachable_bounds. Qed.
+Print Assumptions C04_reachable_bounds.
 
 (* non-vacuity: a wrapped-around, full, well-formed buffer exists and is reached by a history *)
 Example C04_nonvacuous :
